@@ -392,9 +392,16 @@ class Flow:
 
 
 # ---------------------------------------------------------------------------------------------- guard normal form
+def _freeze(x):
+    if isinstance(x, (list, tuple)):
+        return tuple(_freeze(y) for y in x)
+    return x
+
+
 def literals(guard_ir):
     """conjunction of (atom IR, polarity) literals for a list of (condition IR, polarity) path guards; None when a guard is not a conjunction"""
     out = set()
+    guard_ir = [(_freeze(c), pol) for c, pol in guard_ir]
 
     def canon(c, pol):
         if c[0] == "un" and c[1] == "!":
